@@ -481,7 +481,7 @@ class ClientResponse(HeadersMixin):
     def connection(self) -> "Connection | None":
         return self._connection
 
-    @reify
+    @property
     def history(self) -> tuple["ClientResponse", ...]:
         """A sequence of responses, if redirects occurred."""
         return self._history
